@@ -8,6 +8,8 @@ re-execution from the start).  Along a path the interpreter collects
 and ends with an outcome ('return', value) or ('raise', class name).
 """
 import ast
+import os
+import sys
 import math
 from fractions import Fraction
 
@@ -19,6 +21,9 @@ from .repo import Repo
 
 
 # ------------------------------------------------------------------ signals
+_TRACE = bool(os.environ.get('PYVC_TRACE'))
+
+
 class PyRaise(Exception):
     def __init__(self, cls, msg=""):
         Exception.__init__(self, "%s: %s" % (cls, msg))
@@ -295,8 +300,35 @@ class Interp(object):
         elif not cond:
             raise PathInfeasible()
 
+    @staticmethod
+    def _zero_cond(B):
+        """B == 0, with a real product split into 'some factor is 0' (keeps the feasibility query out of nlsat)"""
+        if getattr(B, "r", None) is not None:
+            t = z3.simplify(B.real())
+            fs, todo = [], [t]
+            while todo:
+                x = todo.pop()
+                if z3.is_app(x) and x.decl().kind() == z3.Z3_OP_MUL:
+                    todo.extend(x.children())
+                elif z3.is_app(x) and x.decl().kind() == z3.Z3_OP_DIV:
+                    todo.append(x.arg(0))
+                elif z3.is_rational_value(x) or z3.is_int_value(x):
+                    if x.numerator_as_long() == 0 if z3.is_rational_value(x) else x.as_long() == 0:
+                        return SBool(z3.BoolVal(True))
+                else:
+                    fs.append(x)
+            if len(fs) > 1:
+                return SBool(z3.Or([f == 0 for f in fs]))
+        return B == 0
+
     def _feasible(self, e):
         self.explorer.stats["branch_checks"] += 1
+        if _TRACE:
+            import time as _t
+            t0 = _t.time()
+            r = self.solver.check(e)
+            sys.stderr.write("feasible %s %.2fs %s\n" % (r, _t.time() - t0, str(e)[:100].replace("\n", " ")))
+            return r != z3.unsat
         r = self.solver.check(e)
         return r != z3.unsat
 
@@ -965,7 +997,7 @@ class Interp(object):
                 if B.n == 0:
                     raise PyRaise("ZeroDivisionError", "division by zero")
             else:
-                if self.branch(B == 0):
+                if self.branch(self._zero_cond(B)):
                     raise PyRaise("ZeroDivisionError", "division by zero")
             if nm == "truediv":
                 return norm(A / B)
